@@ -35,9 +35,16 @@ theorem hoisted_state_rows :
     ((RoGen.Catalogue.table.filter (fun r => !r.stateRows.isEmpty)).map (·.name)).all
       (["ShareWithConfig"].contains ·) = true := by decide
 
+/-- no helper function that an operator value obtains a per-item function from (a function that returns a function
+    literal and is not itself called once per subscription) lets the returned literal write to a variable of its
+    own body: nothing is shared between the subscriptions, and the sources, an operator value is applied to
+    (go/extract/closures.go; also method calls on captured fresh objects, delete / clear / copy) -/
+theorem factory_state_rows : RoGen.Catalogue.factoryStateRows = [] := by decide
+
 end Ro.C12
 
 #print axioms Ro.C12.resubscribe_same
 #print axioms Ro.C12.subs_le_one
 #print axioms Ro.C12.table_ok
 #print axioms Ro.C12.hoisted_state_rows
+#print axioms Ro.C12.factory_state_rows
